@@ -158,6 +158,10 @@ class C08(CompSpec):
             if i % 5 == 4:
                 # slow-holder slice: the k-th critical point reached inside a results-lock hold stalls for longer than the lock timeout
                 scen["slow_holder"] = rng.randint(1, 14)
+            if i % 5 in (1, 3) and "slow_holder" not in scen:
+                # resubmission slice: some / all / none of the collected rows are pruned (the consolidated file is rewritten), then
+                # the rerun jobs' results are appended and collected by a second generation of writers and collectors
+                scen["resub"] = {"prune": rng.choice(["some", "some", "all", "none"]), "writers2": rng.randint(1, 3), "collectors2": [rng.randint(1, 3) for _ in range(rng.randint(1, 2))]}
             out.append({"fn": "sim", "args": {"scen": scen, "seed": s, "id": i, "cls": "comp.c08:S8", "prepare": "comp.c08:prepare", "trace_n": 150}})
         # free-running histories: real parallel processes, no scheduler (what the serialized model treats as atomic)
         nfree = {"quick": 14, "thorough": 280}[tier]
@@ -201,6 +205,8 @@ class C08(CompSpec):
             "slow_holder_stall_sites": hist(r.get("slow_holder_at") for r in ok if r.get("slow_holder_stalled")),
             "appends_that_failed_loudly_with_a_lock_timeout": total(ok, "loud_appends"),
             "collections_that_failed_loudly_with_a_lock_timeout": total(ok, "loud_collections"),
+            "resubmission_histories_prune_then_second_generation": sum(1 for r in ok if r.get("resub_pruned_kept_new")),
+            "resubmission_rows_pruned_kept_rewritten": [sum((r.get("resub_pruned_kept_new") or [0, 0, 0])[k] for r in ok) for k in range(3)],
             "free_running_histories": sum(r.get("cases") or 0 for r in ok if r.get("free_running")),
             "free_running_rows": sum(r.get("rows") or 0 for r in ok if r.get("free_running")),
             "free_running_collections": sum(r.get("collections") or 0 for r in ok if r.get("free_running")),
@@ -548,7 +554,7 @@ class C20(CompSpec):
 # slices added during validation (DESIGN 10.5): appended to the rules so that the evidence files describe them
 _MORE = {
     C07: "; the simulated submissions include parameters given as submit-jobs options and resubmissions with changed group parameters (resubmit-jobs -s), judged by the new groups",
-    C08: "; slices: a slow lock holder (a stall beyond the 300-s lock timeout inside a results-lock hold: waiting appends / collections must fail loudly, every append that returned is in the consolidated file exactly once), output directories with glob metacharacters",
+    C08: "; slices: a slow lock holder (a stall beyond the 300-s lock timeout inside a results-lock hold: waiting appends / collections must fail loudly, every append that returned is in the consolidated file exactly once), output directories with glob metacharacters, a resubmission in the middle (some / all / none of the collected rows pruned by clear_results_for_resubmission, then a second generation of writers and collectors: exactly-once over the second phase, kept rows unchanged)",
     C10: "; simulated submissions with refused resubmit-jobs / cancel-jobs on the holder's host and with submit-jobs started twice at once for one new output directory; a slice of histories with a writer killed in the middle of a write",
     C19: "; a quarter of the scenarios use unnamed jobs (JADE names them str(job_id))",
     C20: "; in half of the simulated submissions the jobs log events themselves (own events.log under job-outputs, kept open while they run): what they logged is the ground truth",
